@@ -153,9 +153,39 @@ def run(ctx):
         r2.check(not extra_keys, f"{cname}:dumped keys", "every dumped key is a slot (constructor field) of the class", tj.loc(), why_fail=repr(extra_keys))
     # selects dump their choices under children; the builder reads that back
     bq = ctx.func("pyxform.builder:SurveyElementBuilder._create_question_from_dict", "C16.R2")
-    r2.check("d.get(const.CHOICES, d.get(const.CHILDREN))" in norm(bq.node), "builder:choices/children", "a select's dumped 'children' are read back as its choices", bq.loc())
-    se = repo.cls("pyxform.survey_element:SurveyElement").methods["to_json_dict"]
-    r2.check("result['children'] = [o.to_json_dict(delete_keys=('parent',)) for o in choices.options]" in norm(se.node), "to_json_dict:select choices", "a select's options are dumped under 'children'", se.loc())
+    def _reads_choices_then_children(fn):
+        # `<d>.get(CHOICES, <d>.get(CHILDREN))`, whatever the dict is called
+        for c in walk_own(fn.node):
+            if isinstance(c, ast.Call) and call_name(c) == "get" and len(c.args) == 2 and const_str(ctx, fn.module, c.args[0]) == (True, "choices"):
+                inner = c.args[1]
+                if isinstance(inner, ast.Call) and call_name(inner) == "get" and inner.args and const_str(ctx, fn.module, inner.args[0]) == (True, "children") \
+                        and norm(inner.func.value) == norm(c.func.value):
+                    return True
+        return False
+    r2.check(_reads_choices_then_children(bq), "builder:choices/children", "a select's dumped 'children' are read back as its choices", bq.loc())
+    # a select's options are dumped under 'children' (evaluated on a select with two options)
+    mq = repo.cls("pyxform.question:MultipleChoiceQuestion")
+    ocls = repo.cls("pyxform.question:Option")
+    icls = repo.cls("pyxform.question:Itemset")
+    oslots = tuple(_slots(ctx, ocls))
+    o1 = Obj(ocls, {**{s_: None for s_ in oslots}, "name": "a", "label": "A"}, name="opt_a", slots=oslots)
+    o2 = Obj(ocls, {**{s_: None for s_ in oslots}, "name": "b", "label": "B"}, name="opt_b", slots=oslots)
+    its = Obj(icls, {"name": "l", "options": (o1, o2), "requires_itext": False, "used_by_search": False}, name="itemset")
+    mslots = tuple(_slots(ctx, mq))
+    sel = Obj(mq, {**{s_: None for s_ in mslots}, "name": "s", "type": "select one", "label": "S", "itemset": "l", "list_name": "l", "choices": its,
+                   "bind": {"type": "string"}, "control": {"tag": "select1"}}, name="select", slots=mslots)
+    tjs = next((c.methods["to_json_dict"] for c in it0.mro(mq) if "to_json_dict" in c.methods), None)
+    it = ctx.interp("C16.R2", hooks={"fnname:validate": lambda i, a, k, n: None})
+    it.reset([])
+    try:
+        sd = it.call_function(tjs, [sel], {}, None, tjs.node)
+    except Raised as r:
+        sd = r
+    kids = sd.get("children") if isinstance(sd, dict) else None
+    r2.check(isinstance(kids, list) and [k.get("name") for k in kids if isinstance(k, dict)] == ["a", "b"] and all(k.get("label") in ("A", "B") for k in kids)
+             and not any(isinstance(k.get("parent"), Obj) for k in kids),
+             "to_json_dict:select choices", "a select's options are dumped under 'children', in order, with name and label and without the parent link", tjs.loc(),
+             why_fail=f"{sd!r}"[:200])
     # type dispatch: dumped type strings are keys the builder dispatches on
     cf = ctx.func("pyxform.builder:SurveyElementBuilder.create_survey_element_from_dict", "C16.R2")
     lits = {n.value for n in ast.walk(cf.node) if isinstance(n, ast.Constant) and isinstance(n.value, str)}
